@@ -96,6 +96,17 @@ def generate(rng, tier, idx):
     ops.append(kit.dump_op(K, rng))
     ops.append(down)
     ops.append({"op": "restart", "path": kit.path, "via": pick(rng, ["path", "handle", "loads"]), "offset": rng.randint(0, 500)})
+    if kit.machine == "M-IM" and K["imgs"] and rng.random() < 0.5:
+        # the upgraded object must behave like a current one: a colliding image (same identity, other checksums) is refused
+        used = sorted(set(i for _, _, i in K["cells"]))
+        if used:
+            clone = dict(K["imgs"][pick(rng, used)])
+            clone["checksums"] = {"md5": "0" * 32}
+            clone["path"] = clone["path"] + ".clash"
+            if down.get("version") == "1.0":
+                clone["subvariant"] = ""
+            ops.append({"op": "img_new", "iid": 7000, "attrs": clone})
+            ops.append({"op": "img_add", "variant": K["cells"][0][0], "arch": K["cells"][0][1], "iid": 7000})
     for cycle in range(rng.randint(1, 3)):
         if rng.random() < 0.5:
             ops.append(kit.mutation(K, rng))
